@@ -24,7 +24,14 @@ ALPHA = ['#', 'define', 'X', 'y', '1', '"s"', '""', "'c'", '/* c */', '\\\n', ' 
 
 def build(ctx):
     d = Path(tempfile.mkdtemp(prefix='clex-', dir=ctx.scratch))
-    (d / 'yylex.c').write_text(minilex.YYLEX_C)
+    # the scanner: clex.l's rules compiled to a POSIX-regex matcher that runs the verbatim rule actions (block-comment
+    # skipping included); if clex.l has a shape the generator does not know, fall back to replaying the Python lexer's tokens
+    try:
+        (d / 'yylex.c').write_text(minilex.gen_scanner_c(REPO / 'clex' / 'clex.l'))
+        ctx.scanner = 'generated-from-clex.l'
+    except Exception as e:  # noqa
+        (d / 'yylex.c').write_text(minilex.YYLEX_C)
+        ctx.scanner = f'token-replay ({type(e).__name__})'
     exe = d / 'clex'
     cmd = ['gcc', '-g', '-O1', '-fsanitize=address,undefined', '-fno-omit-frame-pointer', '-I', str(REPO / 'clex'), '-o', str(exe),
            str(REPO / 'clex' / 'driver.c'), str(d / 'yylex.c')]
@@ -92,7 +99,27 @@ def spec(mode, idx, text, toks, status, code, out, lexer):
     if mode.startswith('rm-tok-pattern-'):
         # output must be a sublist (by tokens) of the input, differing only inside the window of n non-blank tokens
         n = int(mode[15:])
-        return None if token_sublist(out, toks) else 'rm-tok-pattern-output-not-a-token-sublist'
+        if not token_sublist(out, toks):
+            return 'rm-tok-pattern-output-not-a-token-sublist'
+        # the documented edit, read independently of the C loop: index = window position * 2^(n-1) + pattern number; the
+        # window covers n consecutive non-blank tokens from that position; token j of the window is removed iff bit j of
+        # (1 + 2 * pattern number) is set; blanks are always kept
+        npat = 1 << (n - 1)
+        pos, pat = idx // npat, 1 + 2 * (idx % npat)
+        nb_seen = 0
+        want = []
+        for k, t in toks:
+            if k in ('TOK_WS', 'TOK_NEWLINE'):
+                want.append(t)
+                continue
+            j = nb_seen - pos
+            nb_seen += 1
+            if 0 <= j < n and (pat >> j) & 1:
+                continue
+            want.append(t)
+        if pos >= nb_seen:
+            return 'OK-beyond-last-token'
+        return None if out == ''.join(want) else 'rm-tok-pattern-removed-the-wrong-tokens'
     if mode == 'delete-string':
         strs = [i for i, (k, t) in enumerate(toks) if k == 'TOK_STRING' and t != '""']
         if idx >= len(strs):
@@ -138,7 +165,10 @@ def gen_texts(ctx):
     rng = ctx.rng
     quick = ctx.tier == 'quick'
     texts = ['#', 'X\n#define X 1', '#define', '# define', '#define A', '#define A 1\nA A\n', 'int x = "a\\"b"; /* c */ y\\\n z', '/* open', '', '"" "abc" \'c\'',
-             '#define X y\nX X\n#define Z\n', 'a b c d e f g h i j', '# \t', 'x #', '#\n', '# define X', 'X # define X']
+             '#define X y\nX X\n#define Z\n', 'a b c d e f g h i j', '# \t', 'x #', '#\n', '# define X', 'X # define X',
+             # block comments whose terminator follows a run of stars (even and odd), empty comments, stars inside
+             'a /** doc **/ b', 'a /***/ b', 'a /**/ b', 'a /* x **/ b /* y */ c', 'a /*** x ***/ b', 'a /* * / */ b', 'a /* x *', 'a /**', 'a /*/ b */ c',
+             'a(b, c); d e f g h', 'f(a, b, c, d, e, f, g, h, i, j);']
     # sizes that cross the growth steps of the helper's tables (token list, identifier index): many distinct identifiers,
     # many tokens, long tokens
     for k in (8, 9, 10, 16, 17, 18, 31, 33, 64, 65, 129, 300):
@@ -251,7 +281,7 @@ def run(ctx):
     ctx.sample({'mode': meta[5]['mode'], 'idx': meta[5]['idx'], 'text': meta[5]['text'], 'observed': reals[5][:120]})
     conclude(ctx, diffs, None)
     shutil.rmtree(d, ignore_errors=True)
-    ctx.assumptions += ['flex is not installed: tokens come from tools/minilex.py (clex.l rules, longest match, earliest rule) and are replayed by a stand-in yylex; driver.c is the file in the tree, compiled with gcc -fsanitize=address,undefined',
+    ctx.assumptions += ['flex is not installed: the C side runs driver.c from the tree with a scanner generated from clex.l by tools/minilex.py (POSIX-regex matcher, longest match, earliest rule, the rule actions copied verbatim - so the block-comment action is the real code); scanner used in this run: ' + getattr(ctx, 'scanner', '?') + '. The Lean model and the token-level specs get their tokens from the independent Python lexer of the same rules (minilex.Lexer); compiled with gcc -fsanitize=address,undefined',
                         'memory safety beyond what ASan/UBSan report on the explored inputs is not claimed']
     return ctx.finish(obligations=OBLIGATIONS,
                       rule='driver.c from the working tree under ASan+UBSan; corpus + sampled exhaustive token sequences over {# define id num "s" "" \'c\' /* */ \\\\nl ws nl ( ) ; int} + random C-like and random byte texts; '
